@@ -165,3 +165,12 @@ def canary_wrong_pct_inverse(K):
     y = K.real("y", nonzero=True)
     fac = T._CUMULATIVE_FACTORY["pct"]
     K.ensure("WRONG: forward pct step adds the change", K.real_eq(K.call(fac["forward"], y, 100 * (x / y - 1)), x + 1))
+
+
+# The keyword shifts (yoy/soy/eopy/tty) of the change functions land on the reference period computed by
+# dates.py: the C09 contracts on those functions are obligations of C13 too.
+from contracts.c09_dates import regular_keyword_shifts, daily_keyword_shifts, REG as _REG
+contract("C13", name="regular_keyword_shifts", targets=["irispie.dates:Period.shift", "irispie.dates:RegularPeriodMixin.create_soy",
+         "irispie.dates:RegularPeriodMixin.create_eopy", "irispie.dates:RegularPeriodMixin.create_tty"], instances=_REG)(regular_keyword_shifts)
+contract("C13", name="daily_keyword_shifts", targets=["irispie.dates:DailyPeriod.create_soy", "irispie.dates:DailyPeriod.create_eopy",
+         "irispie.dates:DailyPeriod.create_tty"], instances=[()])(daily_keyword_shifts)
